@@ -33,14 +33,34 @@ MAP_SPECS = {
 CODES = sorted(MAP_SPECS)
 
 
+CLASS_NAMES = {'L': 'LMap', 'U': 'UMap', 'T': 'TMap', 'V': 'VMap', 'VZ': 'VZMap', 'V2': 'V2Map', 'V3': 'V3Map', 'V4': 'V4Map',
+               'W': 'WMap', 'X': 'XMap', 'Y': 'YMap', 'Z': 'ZMap', 'E': 'EMap', 'SU': 'SignedUMap', 'SLN': 'SLNMap', 'SLX': 'SLXMap',
+               'SLB': 'SLBMap', 'SLT': 'SLTMap', 'SLTW': 'SLTWMap', 'SLD': 'SLDMap', 'Omega': 'OmegaMap'}
+
+
 def _registered_codes():
-    """Every class registered in the tree under test must be known to the generator."""
+    """Every class registered in the tree under test must be known to the generator (by class name: a class the
+    generator does not know is a harness matter -- the table above needs a line)."""
     from ciderpress.dft import transform_data as td
 
+    known = {v: k for k, v in CLASS_NAMES.items()}
     names = set()
     for cls in td.ALL_CLASSES:
-        names.add("Omega" if cls.__name__ == "OmegaMap" else cls.code)
+        names.add(known.get(cls.__name__, "?" + cls.__name__))
     return names
+
+
+def check_registry(ctx):
+    """The code table is part of the stored format: every class writes its own code and the table maps that code back to
+    the class (a violation of the round trip for that class, reported once with its own signature)."""
+    from ciderpress.dft import transform_data as td
+
+    for code, name in sorted(CLASS_NAMES.items()):
+        cls = getattr(td, name, None)
+        ctx.check(cls is not None and cls in td.ALL_CLASSES, ("registry", "class_not_registered", code))
+        ctx.check(getattr(cls, "code", None) == code, ("registry", "class_writes_another_code", code), writes=repr(getattr(cls, "code", None)))
+        ctx.check(td.ALL_CLASS_DICT.get(code) is cls, ("registry", "code_maps_to_another_class", code),
+                  maps_to=getattr(td.ALL_CLASS_DICT.get(code), "__name__", None))
 
 
 def pfloat(lo, hi):
@@ -52,11 +72,7 @@ def build_map(spec):
     from ciderpress.dft import transform_data as td
 
     code = spec["code"]
-    cls = td.OmegaMap if code == "Omega" else None
-    if cls is None:
-        for c in td.ALL_CLASSES:
-            if c.code == code:
-                cls = c
+    cls = getattr(td, CLASS_NAMES[code])
     s = MAP_SPECS[code]
     args = [spec["idx"][n] for n, _ in s["idx"]] + [spec["par"][n] for n in s["par"]]
     return cls(*args)
@@ -151,7 +167,7 @@ def st_map_fd(draw):
                "distinct by (class, indices, parameter bucket)",
           tolerances={"fd_rtol": 1e-6})
 def map_fd(case, ctx):
-    assert set(CODES) == _registered_codes(), "generator out of date with ALL_CLASSES"
+    assert _registered_codes() <= set(CODES), "generator out of date with ALL_CLASSES: %s" % sorted(_registered_codes() - set(CODES))
     spec = case["map"]
     m = build_map(spec)
     n0, ns = case["n0"], case["nsamp"]
